@@ -123,6 +123,7 @@ theorem account_roundtrip_of (htx : TxRT) (a : Account) (rest : Bytes) (h : a.WF
   cases hl : a.latestTx with
   | none =>
     rw [hl] at hltx
+    simp only [latestTxWF] at hltx
     simp only [hltx, Bool.false_and, Bool.false_eq_true, if_false]
     refine ⟨_, rfl, ?_⟩
     simp only [bind_apply, List.append_assoc, List.nil_append, hbase, hclr, storesLatestTx_agree, hltx,
@@ -134,6 +135,7 @@ theorem account_roundtrip_of (htx : TxRT) (a : Account) (rest : Bytes) (h : a.WF
       cases a; simp_all
   | some t =>
     rw [hl] at hltx
+    simp only [latestTxWF] at hltx
     obtain ⟨hs, htwf⟩ := hltx
     simp only [hs, Option.isNone_some, Bool.and_false, Bool.false_eq_true, if_false, if_true]
     refine ⟨_, rfl, ?_⟩
